@@ -29,6 +29,7 @@ type gwWorld struct {
 	tmpdir  string
 	port    int
 	socks   []*net.UDPConn
+	hosts   []string
 	barrier *net.UDPConn
 	mu      sync.Mutex
 	fwded   []server.GatewayPacket
@@ -77,6 +78,15 @@ func newGwWorld(noChecks bool, nsocks int) *gwWorld {
 	}
 	for i := 0; i < nsocks; i++ {
 		c := mk()
+		host := "127.0.0.1"
+		if i == nsocks-1 {
+			// the last gateway socket sends from the IPv6 loopback address when there is one
+			if c6, err := net.ListenUDP("udp", &net.UDPAddr{IP: net.ParseIP("::1"), Port: 0}); err == nil {
+				c.Close()
+				c, host = c6, "::1"
+			}
+		}
+		w.hosts = append(w.hosts, host)
 		w.socks = append(w.socks, c)
 		// one reader per socket: whatever arrives is recorded at once
 		go func(i int, c *net.UDPConn) {
@@ -107,6 +117,14 @@ func newGwWorld(noChecks bool, nsocks int) *gwWorld {
 }
 
 func (w *gwWorld) addr() *net.UDPAddr { return &net.UDPAddr{IP: net.IPv4(127, 0, 0, 1), Port: w.port} }
+
+// the forwarder's address as seen from gateway socket i
+func (w *gwWorld) addrFor(i int) *net.UDPAddr {
+	if w.hosts[i] == "::1" {
+		return &net.UDPAddr{IP: net.ParseIP("::1"), Port: w.port}
+	}
+	return w.addr()
+}
 
 // barrier: a PULL_DATA with a reserved EUI from a dedicated socket; when its PULL_ACK is back, everything the
 // single-threaded main loop did for earlier datagrams has been sent
@@ -228,8 +246,8 @@ func runGwHistory(rng *rand.Rand, w *Writer, suite string, malformed bool) {
 	defer gw.close()
 	euis := []uint64{genEUI(rng), genEUI(rng), genEUI(rng)}
 	var ports []string
-	for _, c := range gw.socks {
-		ports = append(ports, fmt.Sprint(c.LocalAddr().(*net.UDPAddr).Port))
+	for i, c := range gw.socks {
+		ports = append(ports, fmt.Sprintf("%s@%d", gw.hosts[i], c.LocalAddr().(*net.UDPAddr).Port))
 	}
 	var events, obs []string
 	step := func(ev string, opaque bool) {
@@ -256,7 +274,7 @@ func runGwHistory(rng *rand.Rand, w *Writer, suite string, malformed bool) {
 		e := euis[rng.Intn(len(euis))]
 		switch r := rng.Intn(12); {
 		case r < 2: // registry operation
-			ip := []string{"127.0.0.1", "127.0.0.2", "10.1.2.3", "::1", "2001:db8::1"}[rng.Intn(5)]
+			ip := []string{"127.0.0.1", "127.0.0.2", "10.1.2.3", "::1", "2001:db8::1", "::1", "127.0.0.1"}[rng.Intn(7)]
 			strict := rng.Intn(2) == 0
 			g := model.Gateway{GatewayEUI: eui64(e), IP: net.ParseIP(ip), StrictIP: strict, Latitude: 1, Longitude: 2, Altitude: 3}
 			var err error
@@ -280,7 +298,7 @@ func runGwHistory(rng *rand.Rand, w *Writer, suite string, malformed bool) {
 			if rng.Intn(6) == 0 {
 				pkt = append(pkt, randBytes(rng, rng.Intn(5))...) // trailing bytes are ignored
 			}
-			gw.socks[si].WriteToUDP(pkt, gw.addr())
+			gw.socks[si].WriteToUDP(pkt, gw.addrFor(si))
 			step(fmt.Sprintf("G,%d,%s,-", si, hx(pkt)), false)
 			w.Count("gw.pull_data")
 		case r < 9: // PUSH_DATA with 0..4 entries
@@ -333,7 +351,7 @@ func runGwHistory(rng *rand.Rand, w *Writer, suite string, malformed bool) {
 				opaque = true
 			}
 			pkt := append(header(ver, tok, 0, e), []byte(body)...)
-			gw.socks[si].WriteToUDP(pkt, gw.addr())
+			gw.socks[si].WriteToUDP(pkt, gw.addrFor(si))
 			step(fmt.Sprintf("G,%d,%s,%s,%s", si, hx(pkt), cls, strings.Join(ents, ";")), opaque)
 			w.Count("gw.push_data." + cls)
 		case r < 10: // other / malformed datagrams
@@ -353,7 +371,7 @@ func runGwHistory(rng *rand.Rand, w *Writer, suite string, malformed bool) {
 			default:
 				pkt = randBytes(rng, 200+rng.Intn(2000))
 			}
-			gw.socks[si].WriteToUDP(pkt, gw.addr())
+			gw.socks[si].WriteToUDP(pkt, gw.addrFor(si))
 			step(fmt.Sprintf("G,%d,%s,-", si, hx(pkt)), false)
 			w.Count("gw.other")
 		default: // a downlink handed to the forwarder
@@ -364,12 +382,13 @@ func runGwHistory(rng *rand.Rand, w *Writer, suite string, malformed bool) {
 			datr := datrs[rng.Intn(len(datrs))]
 			raw := randBytes(rng, 12+rng.Intn(40))
 			ver := byte(1 + rng.Intn(2))
+			dlhost := gw.hosts[rng.Intn(len(gw.hosts))]
 			p := server.GatewayPacket{RawMessage: raw,
 				Radio:      server.RadioContext{Channel: ch, Frequency: freq, DataRate: datr, RX1Delay: delay},
-				Gateway:    server.GatewayContext{GatewayEUI: eui64(e), GatewayHost: "127.0.0.1", GatewayClock: clock, ProtocolVersion: ver},
+				Gateway:    server.GatewayContext{GatewayEUI: eui64(e), GatewayHost: dlhost, GatewayClock: clock, ProtocolVersion: ver},
 				ReceivedAt: time.Now(), Deadline: float64(delay)}
 			gw.fwd.Input() <- p
-			step(fmt.Sprintf("DL,%x,%d,%d,%v,%s,%d,%s", e, clock, delay, freq, datr, ver, hx(raw)), false)
+			step(fmt.Sprintf("DL,%x,%d,%d,%v,%s,%d,%s,%s", e, clock, delay, freq, datr, ver, hx(raw), dlhost), false)
 			w.Count("gw.downlink")
 		}
 	}
